@@ -100,14 +100,17 @@ def check_pick(ctx, tag, sig, Sy, freq, sel, DF, Fn, Phi):
         i = int(np.argmin(np.abs(freq - Fn[j])))
         if not ctx.check(abs(freq[i] - Fn[j]) <= 1e-12 * max(freq[-1], 1e-300), f"{sig}:not_a_grid_line", lambda: f"{tag}: Fn={Fn[j]!r} is not a line of the frequency grid"):
             continue
-        if not ctx.check(i0 <= i <= i1, f"{sig}:outside_band", lambda: f"{tag}: returned line {i} ({freq[i]:.6g} Hz) outside band lines [{i0},{i1}] for f={f:.6g} DF={DF:.4g}"):
+        # the band is [f - DF, f + DF]: every line inside it competes, a line within 1e-6 of a line spacing of a limit may be counted either way
+        lo_, hi_, m_ = f - DF, f + DF, 1e-6 * df
+        inner = [k for k in range(nf) if lo_ + m_ <= freq[k] <= hi_ - m_]
+        edge_ = [k for k in range(nf) if (abs(freq[k] - lo_) < m_ or abs(freq[k] - hi_) < m_)]
+        if not inner and not edge_:
+            ctx.not_judged("no spectral line inside the band")
             continue
-        inner = range(i0 + 1, i1)
-        lo_ = f - DF
-        if freq[i0] - lo_ >= 1e-9 * df and (i0 == 0 or (lo_ - freq[i0 - 1]) > (freq[i0] - lo_) + 1e-6 * df) and i0 < i1:
-            # the first line of the band lies inside the requested band and is unambiguously the line next to its lower limit (always so for
-            # the 0 Hz line of a band reaching below the grid): it competes like every other line of the band
-            inner = range(i0, i1)
+        if not ctx.check(i in inner or i in edge_, f"{sig}:outside_band",
+                         lambda: f"{tag}: returned line {i} ({freq[i]:.6g} Hz) lies outside the band [{lo_:.6g}, {hi_:.6g}] (f={f:.6g} DF={DF:.4g}; lines inside: {inner[:1]}..{inner[-1:]})"):
+            continue
+        if inner and (freq[inner[0]] - lo_ < 0.5 * df or hi_ - freq[inner[-1]] < 0.5 * df):
             ctx.state("first line of the band judged (inside the band, unambiguous)")
         if len(inner):
             rin = np.array([ratio(k) for k in inner])
